@@ -128,6 +128,13 @@ def worker_env(root, variant, extra_path=()):
         env["ASAN_OPTIONS"] = "detect_leaks=0:halt_on_error=1:abort_on_error=1:allocator_may_return_null=1"
         env["UBSAN_OPTIONS"] = "print_stacktrace=1:halt_on_error=1"
         env["PYTHONMALLOC"] = "malloc"
+    if variant in ("asan", "guard"):
+        # OpenBLAS' AVX kernels (zgemv_n / zdotc_k of the SANDYBRIDGE, HASWELL, COOPERLAKE ... sets) read one or two
+        # elements past the end of correctly sized operands (valgrind: "Invalid read of size 16 ... 0 bytes after a block
+        # of size 1,008" in zgemv_n_HASWELL <- zlarf <- zgebd2 <- zgesdd on an exactly sized 7x9 matrix).  That is a
+        # third-party artefact, harmless under glibc malloc, but under the ASan and guard allocators the read can land
+        # on an unmapped page.  The instrumented builds therefore pin the NEHALEM kernel set, calibrated free of it.
+        env.setdefault("OPENBLAS_CORETYPE", "NEHALEM")
     return env
 
 
